@@ -600,7 +600,15 @@ public:
     else if_constexpr_named(
       cond3, detail::is_one_level_ptr_v<T> && std::is_class_v<T_Deref>)
     {
-      auto val_copy = std::make_unique<tainted<T_Deref, T_Sbx>>(*impl());
+      // Fetch the pointer once (it may live in sandbox memory) and hand a null
+      // pointer to the verifier as the other pointer branches do
+      auto val = impl().get_raw_value();
+      if (val == nullptr) {
+        return verifier(nullptr);
+      }
+      auto val_tainted = tainted<T, T_Sbx>::internal_factory(val);
+      auto val_copy =
+        std::make_unique<tainted<T_Deref, T_Sbx>>(*val_tainted);
       return verifier(std::move(val_copy));
     }
     else if_constexpr_named(cond4, std::is_array_v<T>)
